@@ -97,7 +97,7 @@ impl<'a> Gen<'a> {
             0 => (self.small_num(), Ty::Num),
             1 => (self.small_str(), Ty::Str),
             2 => {
-                let n = if self.rng.chance(1, 4) { self.rng.range(5, 9) as usize } else { self.rng.below(4) as usize };
+                let n = if self.rng.chance(1, 2) { self.rng.range(5, 9) as usize } else { self.rng.below(4) as usize };
                 let xs = (0..n).map(|_| if self.rng.chance(1, 5) { self.data(depth + 1).0 } else { self.small_num() }).collect();
                 (E::List(xs), Ty::List)
             }
@@ -191,7 +191,7 @@ impl<'a> Gen<'a> {
             8,  // 6 do-block shadow
             6,  // 7 call shadow
             6,  // 8 callback assigns
-            5,  // 9 builtin on bound
+            14, // 9 builtin on bound
             5,  // 10 output
             8,  // 11 failing
             4,  // 12 observe
@@ -497,6 +497,16 @@ pub fn gen_scenario(rng: &mut Rng) -> Scenario {
         let l = g.lambda(Some(name));
         g.bound.insert(name.to_string(), Ty::Fun);
         stmts.push(SStmt { stmt: Stmt::Expr(assign(name, l)), kind: "bind-lambda".into() });
+    }
+    // ... and about a third start with a long list and a record, the operands of in-place hazards
+    if g.rng.chance(1, 3) {
+        let xs: Vec<E> = (0..g.rng.range(5, 9)).map(|_| g.small_num()).collect();
+        g.bound.insert("a".to_string(), Ty::List);
+        stmts.push(SStmt { stmt: Stmt::Expr(assign("a", E::List(xs))), kind: "bind-data".into() });
+        if g.rng.chance(1, 2) {
+            g.bound.insert("r".to_string(), Ty::Rec);
+            stmts.push(SStmt { stmt: Stmt::Expr(assign("r", E::Rec(vec![RK::Static("k".into(), num(1)), RK::Static("m".into(), st("s")), RK::Static("x".into(), E::List(vec![num(1), num(2)]))]))), kind: "bind-data".into() });
+        }
     }
     while stmts.len() < n {
         let (s, k) = g.stmt();
